@@ -76,6 +76,9 @@ func init() {
 			}
 			o.NodeSpacing = spacingVal(r, c.Regime, true)
 			o.LayerSpacing = spacingVal(r, c.Regime, false)
+			if extremeScale(r, &o) {
+				c.Family += "+extreme-scale"
+			}
 			c.Opts = o
 			return c
 		},
@@ -395,6 +398,12 @@ func init() {
 					st.Graph = [][]string{} // empty graph: documented panic
 				case 1:
 					st.Graph = [][]string{{"a", "b"}, {"c"}} // malformed edge
+				case 2:
+					if r.Intn(4) == 0 {
+						st.Graph = gen.Names(gen.LongEdges(r)) // edges over 20+ layers: thresholds on edge length
+					} else {
+						st.Graph = gen.Names(gen.Mixed(r, 9))
+					}
 				default:
 					g := gen.Mixed(r, 9)
 					st.Graph = gen.Names(g)
